@@ -83,6 +83,21 @@ type H09Config struct {
 	MaxVisits int // default 3
 	MaxPaths  int // default 20000
 	MaxDepth  int // default 4
+	// MaxVisitsAt, when set, gives the visit bound of blocks of activations at the given call depth
+	// (0 = root); values < 1 fall back to MaxVisits.
+	MaxVisitsAt func(depth int) int
+	// InnerVisits, when > 0, is the visit bound of blocks that lie inside two or more dynamically nested
+	// loops (loops of the callers around the call site included): outermost loops are unrolled up to
+	// MaxVisits-1 times, loops nested in them InnerVisits-1 times.
+	InnerVisits int
+	// Tail: the root returns a function value (a closure, a bound method, a named function); when the
+	// root returns, that function is entered with symbolic parameters (instances H09Param(p)) and free
+	// variables bound to the instances the closure captured on the path. OnReturn is then called at the
+	// returns of that function. OnTail is called when it is entered; OnTailFail when the returned value
+	// cannot be resolved to a function with a body.
+	Tail       bool
+	OnTail     func(st *H09State, fn *ssa.Function)
+	OnTailFail func(st *H09State, ret *ssa.Return)
 }
 
 // H09Result summarises a walk.
@@ -103,6 +118,7 @@ type h09Frame struct {
 	pc     int
 	callSV H09SV
 	call   *ssa.Call
+	outer  int // number of loops (of the callers) around the call site of this activation
 }
 
 // H09State is the state of one path.
@@ -121,7 +137,11 @@ type H09State struct {
 	Trace  []H09Event
 	nextID int
 	steps  int
+	tailFn *ssa.Function
 }
+
+// TailFn is the function entered by the tail call of the root (nil before it happened).
+func (st *H09State) TailFn() *ssa.Function { return st.tailFn }
 
 type h09FKey struct {
 	base  H09SV
@@ -135,6 +155,26 @@ type h09Walker struct {
 	steps  int
 	abort  bool
 	tracks map[*ssa.Alloc]bool
+	nest   map[*ssa.BasicBlock]int
+}
+
+// loopDepth: number of natural loops of its function that contain b.
+func (w *h09Walker) loopDepth(b *ssa.BasicBlock) int {
+	if n, ok := w.nest[b]; ok {
+		return n
+	}
+	if w.nest == nil {
+		w.nest = map[*ssa.BasicBlock]int{}
+	}
+	for _, x := range b.Parent().Blocks {
+		w.nest[x] = 0
+	}
+	for _, l := range Loops(b.Parent()) {
+		for x := range l.Body {
+			w.nest[x]++
+		}
+	}
+	return w.nest[b]
 }
 
 // H09Walk explores fn.
@@ -205,7 +245,7 @@ func cloneL(m map[H09SV][]H09SV) map[H09SV][]H09SV {
 
 func (st *H09State) clone() *H09State {
 	c := &H09State{w: st.w, mem: cloneSV(st.mem), nilf: cloneB(st.nilf), boolf: cloneB(st.boolf), rets: cloneL(st.rets),
-		clos: cloneL(st.clos), ops: cloneL(st.ops), cont: cloneSV(st.cont), nextID: st.nextID, steps: st.steps}
+		clos: cloneL(st.clos), ops: cloneL(st.ops), cont: cloneSV(st.cont), nextID: st.nextID, steps: st.steps, tailFn: st.tailFn}
 	c.fmem = make(map[h09FKey]H09SV, len(st.fmem)+4)
 	for k, v := range st.fmem {
 		c.fmem[k] = v
@@ -241,7 +281,16 @@ func (st *H09State) emit(ev H09Event) {
 // enter moves the activation to block b (binding its phis by the edge taken); false when the
 // visit bound is exceeded.
 func (w *h09Walker) enter(st *H09State, fr *h09Frame, b *ssa.BasicBlock) bool {
-	if fr.visits[b] >= w.cfg.MaxVisits {
+	max := w.cfg.MaxVisits
+	if w.cfg.MaxVisitsAt != nil {
+		if m := w.cfg.MaxVisitsAt(fr.depth); m >= 1 {
+			max = m
+		}
+	}
+	if w.cfg.InnerVisits > 0 && fr.outer+w.loopDepth(b) >= 2 {
+		max = w.cfg.InnerVisits
+	}
+	if fr.visits[b] >= max {
 		w.res.Pruned++
 		return false
 	}
@@ -343,6 +392,19 @@ func h09AddrSimple(addr ssa.Value, depth int) bool {
 		case *ssa.Slice:
 			if r.X != addr {
 				return false
+			}
+		case *ssa.Call:
+			// the address handed to a static callee with a body (`job.run(ctx)` with a pointer receiver, a
+			// helper filling an out-parameter) that treats its parameter the same way. When such a call is
+			// not executed by the walker the content becomes opaque (see call).
+			f := r.Call.StaticCallee()
+			if f == nil || len(f.Blocks) == 0 || r.Call.Value == addr || len(f.Params) != len(r.Call.Args) {
+				return false
+			}
+			for i, a := range r.Call.Args {
+				if a == addr && !h09AddrSimple(f.Params[i], depth+1) {
+					return false
+				}
 			}
 		case *ssa.MakeClosure:
 			if h09ClosureOnlyReads(r, addr, depth) {
@@ -528,6 +590,42 @@ func (w *h09Walker) run(st *H09State) {
 			for i, r := range x.Results {
 				vals[i] = st.val(fr, r)
 			}
+			if len(st.stack) == 1 && w.cfg.Tail && st.tailFn == nil {
+				var fn *ssa.Function
+				var binds []H09SV
+				if len(vals) == 1 {
+					switch f := vals[0].V.(type) {
+					case *ssa.MakeClosure:
+						fn, _ = f.Fn.(*ssa.Function)
+						binds = st.clos[vals[0]]
+					case *ssa.Function:
+						fn = f
+					}
+				}
+				if fn == nil || len(fn.Blocks) == 0 || len(binds) != len(fn.FreeVars) {
+					w.res.Paths++
+					if w.cfg.OnTailFail != nil {
+						w.cfg.OnTailFail(st, x)
+					}
+					return
+				}
+				st.stack = st.stack[:0]
+				nf := st.push(fn, 0)
+				for _, p := range fn.Params {
+					nf.env[p] = H09Param(p)
+				}
+				for i, fv := range fn.FreeVars {
+					nf.env[fv] = binds[i]
+				}
+				st.tailFn = fn
+				if w.cfg.OnTail != nil {
+					w.cfg.OnTail(st, fn)
+				}
+				if !w.enter(st, nf, fn.Blocks[0]) {
+					return
+				}
+				continue
+			}
 			if len(st.stack) == 1 {
 				w.res.Paths++
 				if w.res.Paths > w.cfg.MaxPaths {
@@ -674,6 +772,17 @@ func (w *h09Walker) define(st *H09State, fr *h09Frame, v ssa.Value) {
 				}
 			}
 		}
+	case *ssa.Field:
+		// a field of a struct value assembled field by field in a followed local and passed around as a whole
+		// (a parameter object handed over by value)
+		if snap, ok := st.agg[st.val(fr, x.X)]; ok {
+			if c, ok := snap[x.Field]; ok {
+				fr.env[v] = c
+			} else {
+				fr.env[v] = H09SV{V: ssa.NewConst(nil, x.Type())}
+			}
+			return
+		}
 	case *ssa.Extract:
 		t := st.inst(fr, x.Tuple)
 		if r, ok := st.rets[t]; ok && x.Index < len(r) {
@@ -737,6 +846,8 @@ func (w *h09Walker) call(st *H09State, fr *h09Frame, x *ssa.Call) {
 			if f, ok := mc.Fn.(*ssa.Function); ok {
 				fn, binds = f, st.clos[callee]
 			}
+		} else if f, ok := callee.V.(*ssa.Function); ok {
+			fn = f // a function literal without captures (or a named function) held in a followed local
 		}
 	}
 	inline := fn != nil && len(fn.Blocks) > 0 && w.cfg.Inline != nil && fr.depth+1 <= w.cfg.MaxDepth && w.cfg.Inline(fn)
@@ -756,6 +867,17 @@ func (w *h09Walker) call(st *H09State, fr *h09Frame, x *ssa.Call) {
 	}
 	st.emit(ev)
 	if !inline {
+		// a callee that is not executed may assign the followed locals whose address it is given
+		for _, a := range args {
+			if al, ok := a.V.(*ssa.Alloc); ok && w.trackable(al) {
+				st.mem[a] = H09SV{F: -1}
+				for k := range st.fmem {
+					if k.base == a {
+						delete(st.fmem, k)
+					}
+				}
+			}
+		}
 		// a directly called closure that is not executed may assign the locals it captured
 		for _, b := range binds {
 			if al, ok := b.V.(*ssa.Alloc); ok && w.trackable(al) {
@@ -772,6 +894,7 @@ func (w *h09Walker) call(st *H09State, fr *h09Frame, x *ssa.Call) {
 	}
 	nf := st.push(fn, fr.depth+1)
 	nf.callSV, nf.call = self, x
+	nf.outer = fr.outer + w.loopDepth(x.Block())
 	for i, p := range fn.Params {
 		nf.env[p] = args[i]
 	}
@@ -875,6 +998,25 @@ func (st *H09State) evalBool(sv H09SV, depth int) (known, truth bool, atom H09SV
 			return true, false, H09SV{}, false // zero value of a bool local never assigned on this path
 		}
 		return false, false, H09SV{}, false
+	case *ssa.Extract:
+		// the ok of `v, ok := x.(T)` (also the arms of a type switch) when x is an interface made from a value of a
+		// statically known type on this path
+		if ta, isTA := x.Tuple.(*ssa.TypeAssert); isTA && ta.CommaOk && x.Index == 1 {
+			if tops := st.ops[sv]; len(tops) == 1 {
+				if xs := st.ops[tops[0]]; len(xs) >= 1 {
+					if mi, isMI := xs[0].V.(*ssa.MakeInterface); isMI {
+						dyn := mi.X.Type()
+						if types.IsInterface(ta.AssertedType) {
+							if it, ok := ta.AssertedType.Underlying().(*types.Interface); ok {
+								return true, types.Implements(dyn, it), H09SV{}, false
+							}
+						} else {
+							return true, types.Identical(dyn, ta.AssertedType), H09SV{}, false
+						}
+					}
+				}
+			}
+		}
 	case *ssa.UnOp:
 		if ops := st.ops[sv]; x.Op == token.NOT && len(ops) == 1 {
 			k, t, a, n := st.evalBool(ops[0], depth+1)
@@ -1158,3 +1300,13 @@ func (st *H09State) Depth() int { return st.top().depth }
 
 // Facts returns the assume events of the path in order (for witnesses).
 func (st *H09State) Len() int { return len(st.Trace) }
+
+// H09ReadOnlyAddr: the address is only loaded from (directly or through derived field/element addresses).
+func H09ReadOnlyAddr(a ssa.Value) bool { return h09ReadOnlyAddr(a, 0) }
+
+// FieldsOf returns the fields of a struct value that was assembled field by field in a followed local and then read
+// as a whole (field index -> instance; an absent field is zero).
+func (st *H09State) FieldsOf(sv H09SV) (map[int]H09SV, bool) {
+	m, ok := st.agg[sv]
+	return m, ok
+}
